@@ -8,6 +8,9 @@ RELATION that must hold (Sem.tla / the property statements) and the driver measu
                    integrate(multiply(c, c)) = numerical integral of c^2       (unnormalised case)
   conjugate (C07)  conjugate(c) = c, conjugate(multiply(c1, c2)) = multiply(c1, c2) and equal
                    integrals, for real parameters; conjugate(conjugate(c)) = c
+  shared    (C10)  circuits derived from Gaussian circuits (optionally with an explicit learnable
+                   log-partition) hold no learnable tensor of their own and keep satisfying their
+                   defining relation after in-place updates of the operands
 
 Each measured relation is one ndjson record (kind "rel") validated by specs/TraceTemplates.tla.
 """
@@ -39,8 +42,9 @@ def _tp(shape, lo, hi):
     return Parameter.from_input(TensorParameter(*shape, initializer=UniformInitializer(lo, hi)))
 
 
-def gaussian_circuit(rnd, nv, K, prod):
-    ins = [GaussianLayer(Scope([v]), K, mean=_tp((K,), -1.0, 1.0), stddev=_tp((K,), 0.6, 1.4))
+def gaussian_circuit(rnd, nv, K, prod, lp=False):
+    ins = [GaussianLayer(Scope([v]), K, mean=_tp((K,), -1.0, 1.0), stddev=_tp((K,), 0.6, 1.4),
+                         log_partition=_tp((K,), -0.5, 0.5) if lp else None)
            for v in range(nv)]
     layers = list(ins)
     in_layers = {}
@@ -91,8 +95,9 @@ def record(args):
         flags = FLAGS[tid % len(FLAGS)]
         sem, fold, opt = flags
         rec["flags"] = list(flags)
-        c1 = gaussian_circuit(rnd, nv, K, prod)
-        c2 = gaussian_circuit(rnd, nv, K, prod) if rnd.random() < 0.6 else c1
+        lp = rel == "shared" and rnd.random() < 0.7
+        c1 = gaussian_circuit(rnd, nv, K, prod, lp=lp)
+        c2 = gaussian_circuit(rnd, nv, K, prod, lp=lp) if rnd.random() < 0.6 else c1
         rec["args"] = f"{rel}: {nv} variables, {K} units, {prod}, same operand={c2 is c1}"
         comp = TorchCompiler(semiring=sem, fold=fold, optimize=opt)
         cc1, cc2 = comp.compile(c1), comp.compile(c2)
@@ -156,6 +161,46 @@ def record(args):
                     kk = comp.compile(SF.conjugate(SF.conjugate(pm)))
                     ok = close(ev(kk), ev(m))
                     why = "conj(conj(c1*c2)) != c1*c2"
+        elif rel == "shared":
+            # C10: derived circuits introduce no learnable tensor and follow in-place updates
+            derived = {"integrate": comp.compile(SF.integrate(c1)),
+                       "conjugate": comp.compile(SF.conjugate(c1)),
+                       "multiply": comp.compile(SF.multiply(c1, c2)),
+                       "integrate(multiply)": comp.compile(SF.integrate(SF.multiply(c1, c2)))}
+            base = {p.data_ptr() for cc in (cc1, cc2) for p in cc.parameters()}
+            for name, d in derived.items():
+                new = [tuple(p.shape) for p in d.parameters() if p.requires_grad and p.data_ptr() not in base]
+                if new:
+                    ok, why = False, f"{name}: new learnable tensors of shapes {new}"
+                    break
+            for step in range(3):
+                if not ok:
+                    break
+                heavy = nv == 1 or step == 2      # two-dimensional quadrature only after the last update
+                if step:
+                    with torch.no_grad():
+                        for cc in (cc1, cc2):
+                            for p in cc.parameters():
+                                if p.requires_grad:
+                                    p.add_(0.05 * torch.randn_like(p).clamp(-2, 2))
+                if heavy:
+                    z = const(derived["integrate"])
+                    ref = quad_full(lambda x: ev(cc1, x))
+                    if not close([z], [ref], 1e-6):
+                        ok, why = False, f"after {step} updates: integrate(c)={z} quadrature of c={ref}"
+                        break
+                if not close(ev(derived["conjugate"]), ev(cc1)):
+                    ok, why = False, f"after {step} updates: conjugate(c) != c"
+                    break
+                if not close(ev(derived["multiply"]), ev(cc1) * ev(cc2)):
+                    ok, why = False, f"after {step} updates: multiply(c1, c2) != c1 * c2"
+                    break
+                if nv == 1:
+                    zm = const(derived["integrate(multiply)"])
+                    refm = quad_full(lambda x: ev(cc1, x) * ev(cc2, x))
+                    if not close([zm], [refm], 1e-6):
+                        ok, why = False, f"after {step} updates: integrate(c1*c2)={zm} quadrature={refm}"
+                        break
         rec["rel_ok"] = bool(ok)
         if not ok:
             rec["why"] = why
